@@ -25,9 +25,18 @@ def run_with_nonce_log(cfg_json, ops):
                 return f"C06 operation #{k} under the global key used counter {ic}, expected {cfg.cic + k}"
         acc = []
         for t in trace:
-            if t["op"][0] == "recv" and t["result"].startswith("ok") and t["bytes"][:1] == b"\xdb":
-                from dlms_cosem.protocol import xdlms
-                ic = xdlms.GeneralGlobalCipher.from_bytes(t["bytes"]).invocation_counter
+            if t["op"][0] == "recv" and t["result"].startswith("ok") and t["bytes"][:1] in (b"\xdb", b"\x61", b"\x63"):
+                from dlms_cosem.protocol import acse, xdlms
+                ic = None
+                if t["bytes"][:1] == b"\xdb":
+                    ic = xdlms.GeneralGlobalCipher.from_bytes(t["bytes"]).invocation_counter
+                else:
+                    cls = acse.ApplicationAssociationResponse if t["bytes"][:1] == b"\x61" else acse.ReleaseResponse
+                    ui = cls.from_bytes(t["bytes"]).user_information
+                    if ui is not None and isinstance(ui.content, xdlms.GlobalCipherInitiateResponse):
+                        ic = ui.content.invocation_counter
+                if ic is None:
+                    continue
                 if acc and ic <= max(acc):
                     return f"C06 accepted a protected APDU with counter {ic} after {max(acc)}"
                 acc.append(ic)
@@ -37,12 +46,14 @@ def run_with_nonce_log(cfg_json, ops):
         orig_enc, orig_gmac = security.encrypt, security.gmac
 
         def enc(security_control, system_title, invocation_counter, key, plain_text, auth_key):
-            log.append(("seal", bytes(system_title), invocation_counter))
-            return orig_enc(security_control, system_title, invocation_counter, key, plain_text, auth_key)
+            out = orig_enc(security_control, system_title, invocation_counter, key, plain_text, auth_key)
+            log.append(("seal", bytes(system_title), invocation_counter))       # (only what really reached the primitive)
+            return out
 
         def gm(security_control, system_title, invocation_counter, key, auth_key, challenge):
+            out = orig_gmac(security_control, system_title, invocation_counter, key, auth_key, challenge)
             log.append(("mac", bytes(system_title), invocation_counter))
-            return orig_gmac(security_control, system_title, invocation_counter, key, auth_key, challenge)
+            return out
         security.encrypt, security.gmac = enc, gm
         security._verif_original_gmac = orig_gmac
         try:
@@ -58,7 +69,7 @@ class C06(fw.Prop):
     anchors = ["dlms_cosem/connection.py", "dlms_cosem/security.py"]
     design_ref = "DESIGN.md §6 C06"
     rule = ("histories mixing association, the HLS exchange, GET/SET/ACTION with block transfers and release, 10..150 steps, from starting counters "
-            "0, 1, 255, 2^32-200; received counter sequences with duplicates, decreasing runs, the value equal to the last accepted and jumps to 2^32-1; "
+            "0, 1, 255, 2^32-200, 2^32-4, 2^32-1 (so the counter reaches 2^32); received counter sequences with duplicates, decreasing runs, the value equal to the last accepted and jumps to 2^32-1; "
             "every step compared with the model (counters, ghost logs implied by the outputs); in addition security.encrypt / security.gmac are wrapped "
             "inside the harness process and the property is evaluated on the implementation: nonces pairwise distinct, k-th use = start + k, accepted "
             "counters strictly increasing; non-trivial = distinct history")
@@ -99,13 +110,24 @@ class C06(fw.Prop):
         return ops
 
     def cases(self, rng, tier, deep):
-        for start in (0, 1, 255, 2 ** 32 - 200):
+        for start in (0, 1, 255, 2 ** 32 - 200, 2 ** 32 - 4, 2 ** 32 - 1):
             for hls in (True, False):
                 for rep in range(12 if deep else 2):
                     cfg = cl.Cfg(ek=EK, ak=AK, auth=5 if hls else None, cic=start)
                     p = Path("hls", cfg)
                     ops = self.session_ops(rng, p, rng.randint(3, 40 if deep else 12), hls)
                     yield self.make_case({"cfg": cfg.to_json(), "ops": ops, "tag": "session"})
+        # the counter of the ciphered AARE counts: later APDUs with a counter up to it are replays
+        for n, later in ((50, [50, 3, 51]), (1000, [1, 1000, 999, 1001]), (12, [12, 13, 13])):
+            cfg = cl.Cfg(ek=EK, ak=AK, cic=5)
+            p = Path("hls", cfg)
+            p.mic = n - 1
+            ops = [["send", "aarq", 1], p.resp("aare", (0, None))]
+            for ic in later:
+                ops.append(["send", "getReq", 1])
+                ct = f"seal:{EK[0]}:{EK[1]}:{MT}:{ic}:{cfg.suite + 48}:{AK[0]}:{AK[1]}:s.getRespNormal"
+                ops.append(["recv", ["ggc", MT, str(cfg.suite + 48), str(ic), ct], None])
+            yield self.make_case({"cfg": cfg.to_json(), "ops": ops, "tag": "aare-counter"})
         # received counter orderings
         for rep in range(60 if deep else 10):
             cfg = cl.Cfg(ek=EK, ak=AK, pre=True, state="READY", meter_title=MT, cic=rng.choice([0, 5]), mic=rng.choice([0, 10, 1000]))
